@@ -96,6 +96,10 @@ XMLUCS4Transcoder::transcodeFrom(const  XMLByte* const          srcData
         // Handle a surrogate pair if needed
         if (nextVal & 0xFFFF0000)
         {
+            // Anything beyond the last Unicode code point cannot be represented
+            if (nextVal > 0x10FFFF)
+                ThrowXMLwithMemMgr(TranscodingException, XMLExcepts::Trans_BadSrcSeq, getMemoryManager());
+
             //
             //  If we don't have room for both of the chars, then we
             //  bail out now.
